@@ -419,6 +419,12 @@ def fgCreate (files : List File) (sr : Nat) (frac : Frac) (g : FG) : Except Err 
     | ev :: evs, c :: cs => .ok (ev, { g with events := evs, evCounts := cs, counts := g.counts.set g.fileIdx c })
     | _, _ => .error .index
 
+/-- the `count` setter: `self._file_counts[0] = custom_count - sum(self._file_counts[1:])`
+(Python integers; the model keeps naturals, so the statement about it assumes the custom count is at
+least the part already counted for the files) -/
+def fgSetCount (g : FG) (c : Nat) : FG :=
+  { g with counts := g.counts.set 0 (c - (g.counts.drop 1).foldl (· + ·) 0) }
+
 /-- call `create_event` until it raises: the events, `count` after each, and the final error -/
 def fgAll (files : List File) (sr : Nat) (frac : Frac) : Nat → FG → List (List Row × Nat) × Err
   | 0, _ => ([], .stop)
